@@ -180,6 +180,18 @@ func (cc *ckiCtrlr) less(root Item, ts int64) (uint32, error) {
 	return r.idx, err
 }
 
+// isRoot returns whether root points to a block, which could be read and which is not empty. A tree,
+// which was built for a chunk, always has at least one interval in its root block.
+func (cc *ckiCtrlr) isRoot(root Item) bool {
+	cki := cc.getIndex(root.IndexId)
+	if cki == nil {
+		return false
+	}
+
+	b, err := readBlock(cki.bks, root.Pos)
+	return err == nil && b.records() > 0
+}
+
 func (cc *ckiCtrlr) removeItem(root Item) error {
 	cki := cc.getIndex(root.IndexId)
 	if cki == nil || root.IndexId == 0 {
